@@ -163,6 +163,9 @@ class SimSocket:
         return [e for e in self.log if e[0] == "send"]
 
 
+_XOR = [bytes(x ^ k for x in range(256)) for k in range(256)]
+
+
 def srv_frame(opcode, payload=b"", fin=1, rsv=0, mask=None, lenform=None):
     """encode a server->client frame. lenform in {None(minimal),7,16,64}; mask = 4-byte key or None."""
     n = len(payload)
@@ -177,8 +180,10 @@ def srv_frame(opcode, payload=b"", fin=1, rsv=0, mask=None, lenform=None):
     else:
         hdr = bytes([b0, mbit | 127]) + n.to_bytes(8, "big")
     if mask is not None:
-        body = bytes(b ^ mask[i % 4] for i, b in enumerate(payload))
-        return hdr + bytes(mask) + body
+        body = bytearray(payload)
+        for r in range(4):                       # XOR each residue class with its key byte (table look-up)
+            body[r::4] = bytes(body[r::4]).translate(_XOR[mask[r]])
+        return hdr + bytes(mask) + bytes(body)
     return hdr + bytes(payload)
 
 
